@@ -12,12 +12,21 @@ use crate::prng::Rng;
 pub const SLOPE: u64 = 32;
 pub const CONST: u64 = 1024;
 
+/// Bytes the parser may request from the allocator: a fixed multiple of the input plus a constant
+/// (today it allocates nothing but the error value).
+pub const ALLOC_SLOPE: u64 = 4;
+pub const ALLOC_CONST: u64 = 16_384;
+
 #[cfg(dnssector_verif)]
-fn measure(x: &[u8]) -> Result<(bool, u64, [u64; dnssector::verif::N_SITES]), PanicInfo> {
+fn measure(x: &[u8]) -> Result<(bool, u64, [u64; dnssector::verif::N_SITES], u64), PanicInfo> {
+    use dnssector::DNSSector;
+    let v = x.to_vec();
     dnssector::verif::reset();
-    let r = lib_parse(x)?;
+    let a0 = crate::mon::allocated_bytes();
+    let r = guarded(parse_budget(x.len()), move || DNSSector::new(v).and_then(|ds| ds.parse()).is_ok())?;
+    let allocated = crate::mon::allocated_bytes() - a0;
     let snap = dnssector::verif::snapshot();
-    Ok((r.is_ok(), snap.iter().sum(), snap))
+    Ok((r, snap.iter().sum(), snap, allocated))
 }
 
 /// The longest admissible pointer chain: 127 one-byte labels spread over 16
@@ -259,7 +268,19 @@ fn one(ctx: &mut Ctx, x: &[u8], family: &str) -> Option<u64> {
             }
             None
         }
-        Ok((ok, steps, snap)) => {
+        Ok((ok, steps, snap, allocated)) => {
+            ctx.maximum("max_allocated_bytes", allocated);
+            if allocated > 0 {
+                ctx.count("allocation_observed");
+            }
+            if allocated > ALLOC_SLOPE * x.len() as u64 + ALLOC_CONST {
+                ctx.violation(
+                    "C18",
+                    format!("allocation-bound-exceeded|{}", family),
+                    format!("parsing {} bytes requested {} bytes from the allocator (> {}*len+{}): work that grows with records x packet size", x.len(), allocated, ALLOC_SLOPE, ALLOC_CONST),
+                    x,
+                );
+            }
             let bound = SLOPE * x.len() as u64 + CONST;
             ctx.count(if ok { "accepted" } else { "rejected" });
             ctx.count_n("steps_total", steps);
